@@ -69,6 +69,7 @@ func CheckC07(c *Ctx) int {
 		return GenCfg{Keys: 100 + rng.Intn(300), Vals: 6, MaxDepth: 2, Readers: 1, Txs: 20, OpsPerTx: 40 + rng.Intn(80), PReopen: 0.1, BigBucket: 300}
 	}, true)...)
 	scs = append(scs, nestedDeleteScenarios("c07n", c.Pick(12, 150), c.Seed)...)
+	scs = append(scs, adjacentDeleteScenarios("c07a", c.Pick(6, 40), c.Seed)...)
 	scs = append(scs, faultScenarios("c07f", c.Pick(6, 60), c.Seed, false)...)
 	o := RunScenarios(scs, ValidateSpec{Bolt: true}, filepath.Join(c.WorkDir, "runs"), 14, 5, c.ChildTimeout())
 	c.Absorb(o)
@@ -196,6 +197,65 @@ func init() {
 		s.Exec(Step{Ev: "End", H: W, How: "commit"})
 		_ = s.CloseAll()
 	})
+}
+
+func init() {
+	// Two keys per leaf; one transaction deletes one key from each of two ADJACENT leaves of the same branch, so
+	// that both stay non-empty but under-full and the commit merges siblings. Which of the two is rebalanced first
+	// depends on Go's map iteration order, hence the repetitions on fresh buckets (seeded change S33 shows only
+	// in about one of eight such commits).
+	RegisterRunner("adjacent", func(sc Scenario, s *Session, rng *rand.Rand, res *ScenarioResult) {
+		if err := s.Open(true); err != nil {
+			panic(err)
+		}
+		const W = 1
+		for b := 1; b <= sc.Params["buckets"]; b++ {
+			s.Exec(Step{Ev: "Begin", H: W, W: true})
+			s.Exec(Step{Ev: "Op", H: W, Op: "CreateBucket", K: b})
+			for k := 1; k <= 12; k++ {
+				s.Exec(Step{Ev: "Op", H: W, Op: "Put", Path: []int{b}, K: k, V: 1 + k%4})
+			}
+			if b%3 == 0 {
+				// a paged nested bucket in the middle: a double reference to its root would show in the page graph
+				s.Exec(Step{Ev: "Op", H: W, Op: "CreateBucket", Path: []int{b}, K: 20})
+				for k := 1; k <= 6; k++ {
+					s.Exec(Step{Ev: "Op", H: W, Op: "Put", Path: []int{b, 20}, K: k, V: 2})
+				}
+			}
+			s.Exec(Step{Ev: "End", H: W, How: "commit"})
+			first := 1 + 2*rng.Intn(4) // first key of a leaf (two keys per leaf)
+			s.Exec(Step{Ev: "Begin", H: W, W: true})
+			if rng.Intn(2) == 0 {
+				s.Exec(Step{Ev: "Op", H: W, Op: "Delete", Path: []int{b}, K: first + 2})
+				s.Exec(Step{Ev: "Op", H: W, Op: "Delete", Path: []int{b}, K: first})
+			} else {
+				s.Exec(Step{Ev: "Op", H: W, Op: "Delete", Path: []int{b}, K: first + 1})
+				s.Exec(Step{Ev: "Op", H: W, Op: "Delete", Path: []int{b}, K: first + 3})
+			}
+			s.Exec(Step{Ev: "Dump", H: W})
+			s.Exec(Step{Ev: "End", H: W, How: "commit"})
+			s.Exec(Step{Ev: "Begin", H: 2, W: false})
+			s.Exec(Step{Ev: "Dump", H: 2})
+			s.Exec(Step{Ev: "ForEach", H: 2, Path: []int{b}})
+			s.Exec(Step{Ev: "End", H: 2, How: "rollback"})
+			res.Counters["adjacent_leaf_deletes"]++
+		}
+		_ = s.CloseAll()
+	})
+}
+
+func adjacentDeleteScenarios(prefix string, n int, seed int64) []Scenario {
+	var scs []Scenario
+	for i := 0; i < n; i++ {
+		ps := []int{1024, 4096}[i%2]
+		o := Opts{PageSize: ps}
+		if i%2 == 1 {
+			o.Freelist = "hashmap"
+		}
+		scs = append(scs, Scenario{Name: fmt.Sprintf("%s-%d-%d", prefix, seed, i), Kind: "adjacent", Seed: seed*577 + int64(i), Opts: o, Profile: "half", Observe: true,
+			Params: map[string]int{"buckets": 12}})
+	}
+	return scs
 }
 
 func nestedDeleteScenarios(prefix string, n int, seed int64) []Scenario {
